@@ -2034,7 +2034,11 @@ func noSliceWrite(c *core.Ctx, pkg string) {
 	c.Canary("no-slice-write", canarySliceWrite())
 }
 
-func freshSlice(v ssa.Value) bool {
+func freshSlice(v ssa.Value) bool { return freshSliceEnv(v, nil, 0) }
+
+// freshSliceEnv: v is a slice whose backing array was allocated by the function under inspection (env: which
+// parameters of the function v lives in are bound to such slices by its caller).
+func freshSliceEnv(v ssa.Value, env map[*ssa.Parameter]bool, depth int) bool {
 	switch x := v.(type) {
 	case *ssa.MakeSlice:
 		return true
@@ -2044,6 +2048,38 @@ func freshSlice(v ssa.Value) bool {
 		if al, ok := x.X.(*ssa.Alloc); ok {
 			return al != nil
 		}
+	case *ssa.ChangeType:
+		return freshSliceEnv(x.X, env, depth)
+	case *ssa.Parameter:
+		return env[x]
+	case *ssa.Call:
+		// a helper that hands back a slice made here: every return of the (statically known) callee gives a fresh
+		// slice of its own or one of its parameters, and the argument given for that parameter is fresh at this site
+		callee := x.Call.StaticCallee()
+		if callee != nil && len(callee.Blocks) == 0 && callee.Origin() != nil {
+			callee = callee.Origin()
+		}
+		if callee == nil || len(callee.Blocks) == 0 || depth > 3 || len(callee.Params) != len(x.Call.Args) {
+			return false
+		}
+		inner := map[*ssa.Parameter]bool{}
+		for i, prm := range callee.Params {
+			if _, isSl := prm.Type().Underlying().(*types.Slice); isSl {
+				inner[prm] = freshSliceEnv(x.Call.Args[i], env, depth+1)
+			}
+		}
+		n := 0
+		for _, b := range callee.Blocks {
+			ret, ok := b.Instrs[len(b.Instrs)-1].(*ssa.Return)
+			if !ok {
+				continue
+			}
+			if len(ret.Results) != 1 || !freshSliceEnv(ret.Results[0], inner, depth+1) {
+				return false
+			}
+			n++
+		}
+		return n > 0
 	}
 	return false
 }
